@@ -592,7 +592,9 @@ impl<'a, T: Send> Future for RecvBatchFuture<'a, T> {
             .waiting_async_receivers
             .retain(|w| w.state != state_ptr);
           drop(guard);
-          return Poll::Ready(Err(RecvError::Disconnected));
+          // The last sender left, but items it sent before leaving may still be
+          // queued: fall through to a fresh attempt, which reports Disconnected
+          // only once the queue is drained.
         }
       }
     }
@@ -685,7 +687,9 @@ impl<'a, T: Send> Future for RecvBatchMutFuture<'a, T> {
             .waiting_async_receivers
             .retain(|w| w.state != state_ptr);
           drop(guard);
-          return Poll::Ready(Err(RecvError::Disconnected));
+          // The last sender left, but items it sent before leaving may still be
+          // queued: fall through to a fresh attempt, which reports Disconnected
+          // only once the queue is drained.
         }
       }
     }
@@ -770,7 +774,9 @@ impl<'a, T: Send> Future for RecvFuture<'a, T> {
             .waiting_async_receivers
             .retain(|w| w.state != state_ptr);
           drop(guard);
-          return Poll::Ready(Err(RecvError::Disconnected));
+          // The last sender left, but items it sent before leaving may still be
+          // queued: fall through to a fresh attempt, which reports Disconnected
+          // only once the queue is drained.
         }
       }
     }
